@@ -19,6 +19,7 @@ import Ufw.Model.Sx
 import Ufw.Spec.Sx
 import Ufw.Lemmas.Sx
 import Ufw.Lemmas.SxRender
+import Ufw.Lemmas.SxHeap
 namespace Ufw.Props.C20
 open Ufw Ufw.Model.Sx Ufw.Lemmas.Sx Ufw.Spec.Sx Ufw.Lemmas.SxRender
 /-- an error status never comes with a tree -/
@@ -133,5 +134,101 @@ example : sx_parse (([40, 97, 32, 40, 49, 32, 35, 120, 70, 102, 41, 32, 40, 41, 
     Res.mk .success
       (some (.cons (.sym [97#8]) (.cons (.cons (.int 1) (.cons (.int 255) .nil)) (.cons .nil .nil)))) 15 := by
   decide +kernel
+
+section Heap
+open Ufw.Model.SxHeap Ufw.Lemmas.SxHeap
+
+/-! ### no allocation leaked (heap view, Model/SxHeap) -/
+
+/-- **no allocation leaked**: whatever the input, everything the reader allocated is either part of the tree
+    it returns or has been released by the time it returns -/
+theorem allocations_accounted (s : List Octet) (i : Nat) :
+    (parse_h s i).allocs = (parse_h s i).freed + (parse_h s i).node.weight := by
+  have hl := list_h_allocs s (s.length + 1) (token_h s i).pos
+  have ht := token_h_allocs s i
+  simp only [parse_h]
+  split
+  · split
+    · simp only [PTree.weight, hl]; omega
+    · simp only [hl]; omega
+  · split
+    · simp only [PTree.weight, ht]; omega
+    · split
+      · rename_i hn
+        simp only [PTree.weight, ht, hn.2]
+      · split
+        · simp only [PTree.weight, ht]; omega
+        · simp only [ht]; omega
+
+/-- on an error nothing is left allocated, and no tree is handed out -/
+theorem error_frees_everything (s : List Octet) (i : Nat)
+    (h : (parse_h s i).status ≠ .success) (hf : (parse_h s i).status ≠ .foundList) :
+    (parse_h s i).node = .null ∧ (parse_h s i).freed = (parse_h s i).allocs := by
+  have hacc := allocations_accounted s i
+  have hnull : (parse_h s i).node = .null := by
+    simp only [parse_h] at h hf ⊢
+    split
+    · split
+      · rfl
+      · rename_i hne
+        rename_i hfl
+        simp only [hfl, ↓reduceIte, hne] at h hf
+        exfalso
+        simp only [HRes.isError, Bool.and_eq_true, bne_iff_ne, ne_eq, not_and, Decidable.not_not] at hne
+        exact hf (hne h)
+    · split
+      · rfl
+      · split
+        · rfl
+        · split
+          · rfl
+          · rename_i h1 h2 h3 hne
+            simp only [h1, h2, h3, hne, ↓reduceIte] at h hf
+            exfalso
+            simp only [HRes.isError, Bool.and_eq_true, bne_iff_ne, ne_eq, not_and, Decidable.not_not] at hne
+            exact hf (hne h)
+  refine ⟨hnull, ?_⟩
+  rw [hnull] at hacc
+  simp only [PTree.weight] at hacc
+  omega
+
+
+
+/-- the heap view answers like the reader the other theorems speak about: same status, same position, same tree -/
+theorem heap_view_refines (s : List Octet) (i : Nat) :
+    (parse_h s i).status = (sx_parse s i).status ∧ (parse_h s i).pos = (sx_parse s i).pos ∧
+    (parse_h s i).node = optTree (sx_parse s i).node := by
+  obtain ⟨l1, l2, l3⟩ := list_h_refines s (s.length + 1) (sx_parse_token s i).pos
+  have hts : (token_h s i).status = (sx_parse_token s i).status := rfl
+  have htp : (token_h s i).pos = (sx_parse_token s i).pos := rfl
+  have htn : (token_h s i).node = optTree (sx_parse_token s i).node := rfl
+  have hte : (token_h s i).isError = (sx_parse_token s i).isError := rfl
+  by_cases hf : ((sx_parse_token s i).status == .foundList) = true
+  · have hle : (list_h s (s.length + 1) (sx_parse_token s i).pos).isError =
+        (sx_parse_list s (s.length + 1) (sx_parse_token s i).pos).isError := by
+      simp only [HRes.isError, Res.isError, l1]
+    by_cases herr : (sx_parse_list s (s.length + 1) (sx_parse_token s i).pos).isError = true
+    · simp only [parse_h, sx_parse, hts, htp, hf, ↓reduceIte, hle, herr]
+      exact ⟨l1, l2, rfl⟩
+    · simp only [parse_h, sx_parse, hts, htp, hf, ↓reduceIte, hle, herr, Bool.false_eq_true]
+      exact ⟨l1, l2, l3 (by simpa using herr)⟩
+  · by_cases hel : (sx_parse_token s i).isEmptyList = true
+    · simp only [parse_h, sx_parse, hts, htp, hf, Bool.false_eq_true, ↓reduceIte, tokL, hel]
+      simp [Res.isError, optTree]
+    · by_cases hn : ((sx_parse_token s i).status == .success) = true ∧ (sx_parse_token s i).node.isNone = true
+      · have hn' : ((sx_parse_token s i).status == .success) = true ∧ (token_h s i).node = .null := by
+          have := (tokN s i).mpr hn; simpa [hts] using this
+        simp only [parse_h, sx_parse, hts, htp, hf, Bool.false_eq_true, ↓reduceIte, tokL, hel, hn, hn', and_self]
+        simp [Res.isError, optTree]
+      · have hn' : ¬ (((sx_parse_token s i).status == .success) = true ∧ (token_h s i).node = .null) :=
+          fun h => hn ((tokN s i).mp (by simpa [hts] using h))
+        by_cases herr : (sx_parse_token s i).isError = true
+        · simp only [parse_h, sx_parse, hts, htp, hf, Bool.false_eq_true, ↓reduceIte, tokL, hel, hn, hn', hte, herr]
+          simp [optTree]
+        · simp only [parse_h, sx_parse, hts, htp, hf, Bool.false_eq_true, ↓reduceIte, tokL, hel, hn, hn', hte, herr]
+          exact ⟨trivial, trivial, htn⟩
+
+
+end Heap
 
 end Ufw.Props.C20
